@@ -1076,7 +1076,10 @@ static void run_buffered_part(const GIn& g, uint64_t a, uint64_t b) {
 // ---------------------------------------------------------------------------
 // dispatch
 // ---------------------------------------------------------------------------
-// idx = gi * (NWIDTHS * nvar) + wi * nvar + var
+// idx = gi * (nw * nvar) + k * nvar + var, width index wi = wfirst + k.
+// Every component gets one case for the widths 0/4/8 and one for 1-byte edge
+// data: the latter fails for a reason of its own (the length test in
+// FileGraph::fromMem) and must not crowd the findings table of the former.
 #define DISPATCH(wi, CALL)                                                     \
   do {                                                                         \
     if ((wi) == 0) {                                                           \
@@ -1097,38 +1100,49 @@ static void run_buffered_part(const GIn& g, uint64_t a, uint64_t b) {
 typedef std::function<void(const GIn&, int wi, int var, bool thorough)> Body;
 typedef std::function<std::string(int var, bool thorough)> VDesc;
 
+static std::vector<sx::EnumCase>* g_cases = nullptr;
+
 // quickBoundsAlways: use the quick tier's input bounds in both tiers
-static sx::EnumCase make_case(const std::string& name,
-                              std::function<int(bool)> nvar, Body body,
-                              VDesc vdesc, bool quickBoundsAlways = false) {
+static void add_case1(const std::string& name, int wfirst, int nw,
+                      std::function<int(bool)> nvar, Body body, VDesc vdesc,
+                      bool quickBoundsAlways) {
   sx::EnumCase c;
   c.name  = name;
-  c.count = [nvar, quickBoundsAlways](bool th) {
+  c.count = [nvar, quickBoundsAlways, nw](bool th) {
     th = th && !quickBoundsAlways;
-    return graph_count(th) * NWIDTHS * nvar(th);
+    return graph_count(th) * nw * nvar(th);
   };
-  c.run = [nvar, body, quickBoundsAlways](uint64_t idx, bool th) {
+  c.run = [nvar, body, quickBoundsAlways, wfirst, nw](uint64_t idx, bool th) {
     th      = th && !quickBoundsAlways;
     int nv  = nvar(th);
     int var = (int)(idx % nv);
     idx /= nv;
-    int wi = (int)(idx % NWIDTHS);
-    idx /= NWIDTHS;
+    int wi = wfirst + (int)(idx % nw);
+    idx /= nw;
     GIn g = graph_at(idx, th);
     body(g, wi, var, th);
   };
-  c.describe = [nvar, vdesc, quickBoundsAlways](uint64_t idx, bool th) {
+  c.describe = [nvar, vdesc, quickBoundsAlways, wfirst, nw](uint64_t idx,
+                                                            bool th) {
     th      = th && !quickBoundsAlways;
     int nv  = nvar(th);
     int var = (int)(idx % nv);
     idx /= nv;
-    int wi = (int)(idx % NWIDTHS);
-    idx /= NWIDTHS;
+    int wi = wfirst + (int)(idx % nw);
+    idx /= nw;
     GIn g = graph_at(idx, th);
     return graph_str(g) + " sizeofEdge=" + std::to_string(WIDTHS[wi]) + " " +
            vdesc(var, th);
   };
-  return c;
+  g_cases->push_back(c);
+}
+
+static void add_case(const std::string& name, std::function<int(bool)> nvar,
+                     Body body, VDesc vdesc, bool quickBoundsAlways = false) {
+  add_case1(name + " [sizeofEdge 0/4/8]", 0, 3, nvar, body, vdesc,
+            quickBoundsAlways);
+  add_case1(name + " [sizeofEdge 1]", 3, 1, nvar, body, vdesc,
+            quickBoundsAlways);
 }
 
 static std::function<int(bool)> fixed(int k) {
@@ -1143,7 +1157,8 @@ static std::string range_str(int r, bool th) {
 int main(int argc, char** argv) {
   remove_stale();
   std::vector<sx::EnumCase> en;
-  en.push_back(make_case(
+  g_cases = &en;
+  add_case(
       "write v1: FileGraphWriter -> toFile -> independent decoder", fixed(2),
       [](const GIn& g, int wi, int style, bool) {
         DISPATCH(wi, run_writer<T>(g, style));
@@ -1151,10 +1166,10 @@ int main(int argc, char** argv) {
       [](int style, bool) {
         return std::string(style ? "incrementDegree(id,deg)+finish<T>()"
                                  : "incrementDegree(id)+addNeighbor<T>");
-      }));
+      });
   for (int ver = 1; ver <= 2; ++ver) {
     std::string V = "v" + std::to_string(ver);
-    en.push_back(make_case(
+    add_case(
         "write " + V +
             ": FileGraph loaded/copied/moved/fromGraph -> toFile -> "
             "independent decoder",
@@ -1162,19 +1177,19 @@ int main(int argc, char** argv) {
         [ver](const GIn& g, int wi, int route, bool) {
           DISPATCH(wi, run_tofile<T>(g, ver, route));
         },
-        [](int route, bool) { return std::string(ROUTES[route]); }));
+        [](int route, bool) { return std::string(ROUTES[route]); });
   }
   for (int ver = 1; ver <= 2; ++ver) {
     std::string V = "v" + std::to_string(ver);
-    en.push_back(make_case(
+    add_case(
         "read " + V + ": FileGraph::fromFile / fromFileInterleaved", fixed(2),
         [ver](const GIn& g, int wi, int variant, bool) {
           DISPATCH(wi, run_fromfile<T>(g, ver, variant));
         },
         [](int variant, bool) {
           return std::string(variant ? "fromFileInterleaved" : "fromFile");
-        }));
-    en.push_back(make_case(
+        });
+    add_case(
         "read " + V +
             ": FileGraph::partFromFile, every node range x every edge-range "
             "end",
@@ -1184,40 +1199,40 @@ int main(int argc, char** argv) {
           range_at(r, max_n(th), a, b);
           DISPATCH(wi, run_part<T>(g, ver, a, b, false));
         },
-        range_str));
-    en.push_back(make_case(
+        range_str);
+    add_case(
         "read " + V + ": FileGraph::partFromFile containsNode", num_ranges,
         [ver](const GIn& g, int wi, int r, bool th) {
           uint64_t a, b;
           range_at(r, max_n(th), a, b);
           DISPATCH(wi, run_part<T>(g, ver, a, b, true));
         },
-        range_str, /*quickBoundsAlways=*/true));
-    en.push_back(make_case(
+        range_str, /*quickBoundsAlways=*/true);
+    add_case(
         "read " + V + ": OfflineGraph", fixed(1),
         [ver](const GIn& g, int wi, int, bool) {
           DISPATCH(wi, run_offline<T>(g, ver));
         },
-        [](int, bool) { return std::string(); }));
+        [](int, bool) { return std::string(); });
   }
-  en.push_back(make_case(
+  add_case(
       "read v1: OCFileGraph, every edge segment", fixed(1),
       [](const GIn& g, int wi, int, bool) { DISPATCH(wi, run_oc<T>(g)); },
-      [](int, bool) { return std::string(); }));
-  en.push_back(make_case(
+      [](int, bool) { return std::string(); });
+  add_case(
       "read v1: BufferedGraph::loadGraph", fixed(1),
       [](const GIn& g, int wi, int, bool) {
         DISPATCH(wi, run_buffered_whole<T>(g));
       },
-      [](int, bool) { return std::string(); }));
-  en.push_back(make_case(
+      [](int, bool) { return std::string(); });
+  add_case(
       "read v1: BufferedGraph::loadPartialGraph, every node range", num_ranges,
       [](const GIn& g, int wi, int r, bool th) {
         uint64_t a, b;
         range_at(r, max_n(th), a, b);
         DISPATCH(wi, run_buffered_part<T>(g, a, b));
       },
-      range_str));
+      range_str);
   // share of the deadline per case, roughly proportional to measured cost
   static const struct {
     const char* frag;
